@@ -372,11 +372,22 @@ class SubpartitionWriterSpec(KernelSpec):
         if toks[1] != "-":
             for g in toks[1].split("|"):
                 gs.append([bytes.fromhex(h) for h in g.split(",") if h])
-        return {"meta": ms, "groups": gs}
+        return self._norm_digest({"meta": ms, "groups": gs})
+
+    @staticmethod
+    def _norm_digest(d):
+        """the digest text of an unsafe last-column name is rendered by format! (not modelled): compare only that a digest
+        - something different from the name itself - is used"""
+        for mm in d["meta"]:
+            last = mm["last"]
+            safe = len(last) <= 64 and all((0x61 <= ch <= 0x7a) or ch == 0x5f for ch in last)
+            if not safe and len(d["meta"]) > 1 and mm["key"] != last:
+                mm["key"] = b"#digest"
+        return d
 
     def native_view(self, inst, shape, v, st):
         d = self.view(None, v)
-        return d
+        return self._norm_digest(d)
 
 
 # ----------------------------------------------------------------------------------------------------
